@@ -66,7 +66,9 @@ const (
 )
 
 // NewCodec returns a new Decoder for the given code space range.
-// The only errors returned are if the code space range is invalid.
+// The only errors returned are if the code space range is invalid, or if it
+// has so many different ranges (tens of thousands) that the codec's lookup
+// structure cannot hold them.
 func NewCodec(ranges CodeSpaceRange) (*Codec, error) {
 	for _, r := range ranges {
 		if !r.IsValid() {
@@ -79,11 +81,19 @@ func NewCodec(ranges CodeSpaceRange) (*Codec, error) {
 		return nil, err
 	}
 
+	nodes, ok := linearize(tree)
+	if !ok {
+		return nil, errCodeSpaceRangeTooLarge
+	}
 	c := &Codec{
-		nodes: linearize(tree),
+		nodes: nodes,
 	}
 	return c, nil
 }
+
+// errCodeSpaceRangeTooLarge is returned for range sets whose lookup structure
+// would need more nodes than the 16-bit child links can address.
+var errCodeSpaceRangeTooLarge = errors.New("charcode: code space range too large")
 
 // Decode decodes the first character code of an input byte sequence.
 // The method returns the character code, the number of bytes consumed,
@@ -452,15 +462,19 @@ func minLength(csr CodeSpaceRange) int {
 	return min
 }
 
-func linearize(t tree) []linearizedNode {
+func linearize(t tree) ([]linearizedNode, bool) {
 	l := newLinearizer()
 	l.AppendNodes(t)
-	return l.nodes
+	return l.nodes, !l.tooLarge
 }
 
 type linearizer struct {
 	nodes []linearizedNode
 	done  map[string]uint16
+
+	// tooLarge is set once a node index would collide with the reserved
+	// values of the child field (invalidConsume3 and above).
+	tooLarge bool
 }
 
 func newLinearizer() *linearizer {
@@ -486,8 +500,14 @@ func (l *linearizer) AppendNodes(t tree) uint16 {
 	for _, high := range bb {
 		l.nodes = append(l.nodes, linearizedNode{bound: high})
 	}
+	if len(l.nodes) > int(invalidConsume3) {
+		l.tooLarge = true
+	}
 
 	for i, high := range bb {
+		if l.tooLarge {
+			return 0
+		}
 		childNode := t[high]
 
 		idx, ok := l.done[string(childNode.desc)]
@@ -497,6 +517,9 @@ func (l *linearizer) AppendNodes(t tree) uint16 {
 		}
 
 		childPos := l.AppendNodes(t[high].children)
+		if l.tooLarge {
+			return 0
+		}
 		l.nodes[base+i].child = childPos
 		l.done[string(childNode.desc)] = childPos
 
